@@ -24,16 +24,30 @@ type Auth struct {
 	Es   []int
 }
 
-var compNames = []string{"S0", "S1", "S2", "R0", "R1"}
-var ifaceNames = []string{"I0", "I1", "I2", "RI0", "RI1"}
+// Declarations: the script-local ones (S0..R1, I0..RI1) and two contracts, K and Outer, each deployed with
+// identical code at 0x1 and at 0x2: distinct types with identical qualified names in different locations.
+// compNames / ifaceNames are the names used in (normalised) type identifiers, compCadence / ifaceCadence the
+// spelling in programs (`import K from 0x1`, `import K as K2 from 0x2`, likewise Outer / Outer2).
+var compNames = []string{"S0", "S1", "S2", "R0", "R1", "K1_F", "K2_F", "K1_G", "K2_G", "K1_En", "K2_En", "Outer1_Inner", "Outer2_Inner"}
+var ifaceNames = []string{"I0", "I1", "I2", "RI0", "RI1", "K1_FI", "K2_FI", "K1_GI", "K2_GI"}
+var compCadence = []string{"S0", "S1", "S2", "R0", "R1", "K.F", "K2.F", "K.G", "K2.G", "K.En", "K2.En", "Outer.Inner", "Outer2.Inner"}
+var ifaceCadence = []string{"I0", "I1", "I2", "RI0", "RI1", "K.FI", "K2.FI", "K.GI", "K2.GI"}
+
+// twin: the same-named type declared at the other address
+var compTwin = map[int]int{5: 6, 6: 5, 7: 8, 8: 7, 9: 10, 10: 9, 11: 12, 12: 11}
+
+var structComps = []int{0, 1, 2, 5, 6, 9, 10, 11, 12}
+var resourceComps = []int{3, 4, 7, 8}
+
+func compIsEnum(c int) bool { return c == 9 || c == 10 }
 var entNames = []string{"E0", "E1", "E2"}
 
 // effective conformance sets, as in Cases.v D0
-var compConf = map[int][]int{0: {0}, 1: {1, 0, 2}, 2: {}, 3: {3}, 4: {4, 3}}
+var compConf = map[int][]int{0: {0}, 1: {1, 0, 2}, 2: {}, 3: {3}, 4: {4, 3}, 5: {5}, 6: {6}, 7: {7}, 8: {8}}
 var ifaceSupers = map[int][]int{1: {0}, 4: {3}}
 
-func compIsResource(c int) bool  { return c >= 3 }
-func ifaceIsResource(i int) bool { return i >= 3 }
+func compIsResource(c int) bool  { return c == 3 || c == 4 || c == 7 || c == 8 }
+func ifaceIsResource(i int) bool { return i == 3 || i == 4 || i == 7 || i == 8 }
 
 // Cadence spelling of primitive types (Coq constructor suffix -> name)
 func primName(p string) string {
@@ -143,11 +157,11 @@ func (t *Ty) cadence() string {
 	case "dict":
 		return "{" + t.A.cadence() + ": " + t.B.cadence() + "}"
 	case "comp":
-		return compNames[t.C]
+		return compCadence[t.C]
 	case "inter":
 		parts := make([]string, len(t.Is))
 		for i, x := range t.Is {
-			parts[i] = ifaceNames[x]
+			parts[i] = ifaceCadence[x]
 		}
 		return "{" + strings.Join(parts, ", ") + "}"
 	case "ref":
@@ -257,6 +271,12 @@ func (t *Ty) containsRef() bool {
 // ------------------------------------------------------------------ type identifier parser
 
 var locRe = regexp.MustCompile(`s\.[0-9a-f]{64}\.`)
+var addrLocRe = regexp.MustCompile(`A\.000000000000000([12])\.(K|Outer)\.`)
+
+// norm removes script locations and turns `A.000000000000000n.K.` into `Kn_` (one identifier per type)
+func norm(s string) string {
+	return addrLocRe.ReplaceAllString(locRe.ReplaceAllString(s, ""), "${2}${1}_")
+}
 
 type idParser struct {
 	s string
@@ -395,7 +415,7 @@ func parseTypeID(id string) (t *Ty, err error) {
 			err = fmt.Errorf("%v", r)
 		}
 	}()
-	p := &idParser{s: locRe.ReplaceAllString(id, "")}
+	p := &idParser{s: norm(id)}
 	t = p.ty()
 	if p.i != len(p.s) {
 		p.fail("trailing input")
